@@ -698,6 +698,7 @@ func report(o *checkOpts, spec *PropSpec, ld *Loaded, results []*ObResult, engin
 			"engine_errors":            engineErrs,
 			"known_findings_hit":       knownHits,
 			"unclaimed":                unclaimedList(results),
+			"claimed_obligations":      claimedList(results),
 		},
 		"assumptions": assumptions,
 		"wall_s":      wall,
@@ -931,6 +932,18 @@ func claimedFunctions(verif string) map[string][]string {
 			}
 			out[pf.Func] = append(out[pf.Func], tag)
 		}
+	}
+	return out
+}
+
+// claimedList: every claimed obligation of this run with its verdict, the solver that decided it and the time.
+func claimedList(results []*ObResult) []map[string]interface{} {
+	var out []map[string]interface{}
+	for _, r := range results {
+		if !r.Claimed || r.Kind == "cover" || r.Kind == "consistency" {
+			continue
+		}
+		out = append(out, map[string]interface{}{"obligation": r.Name, "kind": r.Kind, "verdict": r.Verdict, "solver": r.Solver, "time_s": r.TimeS, "paths": r.Records})
 	}
 	return out
 }
